@@ -5,8 +5,11 @@
 (* fastest), exactly the order of numpy's ravel(), which is how the        *)
 (* harness projects arrays.  A label map is a sequence of length N.        *)
 (***************************************************************************)
-EXTENDS Integers, Sequences, FiniteSets, Rat
+EXTENDS Integers, Sequences, FiniteSets, FiniteSetsExt, Rat
 
+\* smallest / largest element of a non-empty set of integers, in one pass
+MinInt(S) == FoldSet(LAMBDA x, acc : IF x < acc THEN x ELSE acc, CHOOSE y \in S : TRUE, S)
+MaxInt(S) == FoldSet(LAMBDA x, acc : IF x > acc THEN x ELSE acc, CHOOSE y \in S : TRUE, S)
 RECURSIVE Prod(_)
 Prod(s) == IF s = <<>> THEN 1 ELSE Head(s) * Prod(Tail(s))
 
@@ -37,7 +40,17 @@ FaceNbr(shape, u, v) == L1(shape, u, v) = 1
 FullNbr(shape, u, v) == Linf(shape, u, v) = 1
 Nbr(kind, shape, u, v) == IF kind = "face" THEN FaceNbr(shape, u, v) ELSE FullNbr(shape, u, v)
 
-NbrsOf(kind, shape, v) == {u \in Vox(shape) : Nbr(kind, shape, u, v)}
+\* the neighbours of v, generated from coordinate offsets (linear in the neighbourhood size, not in
+\* the grid size)
+Offsets(kind, d) ==
+    IF kind = "face"
+    THEN {[a \in 1..d |-> IF a = b THEN s ELSE 0] : b \in 1..d, s \in {-1, 1}}
+    ELSE [1..d -> {-1, 0, 1}] \ {[a \in 1..d |-> 0]}
+NbrsOf(kind, shape, v) ==
+    LET d == Len(shape)
+        c == CoordVec(shape, v)
+        ok(o) == \A a \in 1..d : c[a] + o[a] >= 0 /\ c[a] + o[a] < shape[a]
+    IN {VoxOf(shape, [a \in 1..d |-> c[a] + o[a]]) : o \in {x \in Offsets(kind, d) : ok(x)}}
 
 (***************************************************************************)
 (* Connected components of a voxel set S under a neighbourhood, by the     *)
@@ -46,7 +59,7 @@ NbrsOf(kind, shape, v) == {u \in Vox(shape) : Nbr(kind, shape, u, v)}
 RECURSIVE Grow(_, _, _, _, _)
 Grow(kind, shape, S, comp, frontier) ==
     IF frontier = {} THEN comp
-    ELSE LET new == {u \in S \ comp : \E f \in frontier : Nbr(kind, shape, u, f)}
+    ELSE LET new == (UNION {NbrsOf(kind, shape, f) : f \in frontier}) \cap (S \ comp)
          IN Grow(kind, shape, S, comp \cup new, new)
 
 ComponentOf(kind, shape, S, v) == Grow(kind, shape, S, {v}, {v})
@@ -54,14 +67,14 @@ ComponentOf(kind, shape, S, v) == Grow(kind, shape, S, {v}, {v})
 RECURSIVE Components(_, _, _)
 Components(kind, shape, S) ==
     IF S = {} THEN {}
-    ELSE LET v == CHOOSE x \in S : \A y \in S : x <= y
+    ELSE LET v == MinInt(S)
              c == ComponentOf(kind, shape, S, v)
          IN {c} \cup Components(kind, shape, S \ c)
 
 IsConnected(kind, shape, S) == S # {} /\ LET v == CHOOSE x \in S : TRUE IN ComponentOf(kind, shape, S, v) = S
 
 \* two disjoint voxel sets touch if some voxel of one neighbours a voxel of the other
-Touch(kind, shape, A, B) == \E a \in A : \E b \in B : Nbr(kind, shape, a, b)
+Touch(kind, shape, A, B) == \E a \in A : NbrsOf(kind, shape, a) \cap B # {}
 
 (***************************************************************************)
 (* Label maps.                                                             *)
@@ -79,7 +92,7 @@ Binarize(arr)     == [v \in 1..Len(arr) |-> IF arr[v] # 0 THEN 1 ELSE 0]
 (* out-of-array face neighbour.                                            *)
 (***************************************************************************)
 OnArrayEdge(shape, v) == \E a \in 1..Len(shape) : Coord(shape, v, a) = 0 \/ Coord(shape, v, a) = shape[a] - 1
-Border(shape, S) == {v \in S : OnArrayEdge(shape, v) \/ \E u \in Vox(shape) \ S : FaceNbr(shape, u, v)}
+Border(shape, S) == {v \in S : OnArrayEdge(shape, v) \/ ~(NbrsOf("face", shape, v) \subseteq S)}
 
 \* minimum squared distance from v to a non-empty voxel set T
 MinSqDist(shape, v, T) ==
